@@ -171,6 +171,14 @@ func (runInfo *runInfoStruct) invokeAddOperator(operator *ast.AddOperator) {
 		lhsKind := lhsV.Kind()
 		rhsKind := runInfo.rv.Kind()
 
+		// a Go array is appended to, and appended, as the slice of its elements
+		if lhsKind == reflect.Array {
+			lhsV = sliceOfArray(lhsV)
+		}
+		if rhsKind == reflect.Array {
+			runInfo.rv = sliceOfArray(runInfo.rv)
+		}
+
 		if lhsKind == reflect.Slice || lhsKind == reflect.Array {
 			if rhsKind == reflect.Slice || rhsKind == reflect.Array {
 				// append slice to slice
